@@ -16,7 +16,8 @@ SPEC = {
         ("non-emitting search(call-site precondition of next: only moves the map offers)", 'ne_end', r'^walk:'),
         ("non-emitting search, same observation(call-site precondition of next)", 'ne_inner', r'^walk:'),
         ("_build_node_path(returned sequence = state keys of the back-tracked entries in order; unique removes exactly the immediate repetitions: loop invariant)", 'path_tail', r'(^tail:|^unique:|::inv-(init|preserved)::)'),
-        ("_build_matching_path(back-tracking follows the stored predecessor links to a most probable predecessor; depth counts emitting entries; result reversed from the chosen entry: loop invariants)", 'backtrack', r'(^chain:|::inv-(init|preserved)::)')],
+        ("_build_matching_path(back-tracking follows the stored predecessor links to a most probable predecessor; depth counts emitting entries; result reversed from the chosen entry: loop invariants)", 'backtrack', r'(^chain:|::inv-(init|preserved)::)'),
+        ("K-upsert(distinct states are filed under distinct keys: the key is the tuple of labels, observation index and depth)", 'upsert', r'^upsert:absent')],
     'bounded': [
         ('walk-in-the-graph', suites.case_C04, 1500, 200000, RULE + '; ' + 'non-trivial = best path visits at least two different states; histories of <= 4 operations', '')],
 }
